@@ -40,13 +40,15 @@ Enc4(M, style) ==
        [kind |-> "f4", style |-> style, map |-> M, gia |-> <<>>,
         segs |-> [k \in 1..Len(runs) |-> [sc |-> runs[k][1], ec |-> runs[k][Len(runs[k])],
                                           idd |-> Mod16(M[runs[k][1]] - runs[k][1]), idr |-> 0]] \o <<Term>>]
-  ELSE \* "range0": idRangeOffset form with idDelta 0; "ranged": idDelta 65533 (= -3) and entries stored as glyph + 3;
+  ELSE \* "range0": idRangeOffset form with idDelta 0; "ranged": idDelta 65533 (= -3) and entries stored as glyph + 3
+       \* (glyph 65534 is stored as 1: 1 + (-3) wraps below 0); "rangew": idDelta 10 and entries stored as glyph - 10
+       \* modulo 65536 (glyph 1 is stored as 65527: 65527 + 10 wraps past 65535);
        \* "mixed": the first run in delta form when it can be, the others in idRangeOffset form
        LET all == RunsOf(AscSeq(DOMAIN M), <<>>, M, "range")
            tr == [k \in 1..Len(all) |-> Trim(all[k], M)]
            runs == SelectSeq(tr, LAMBDA r : r # <<>>)
            n == Len(runs) + 1
-           d == IF style = "ranged" THEN 65533 ELSE 0
+           d == IF style = "ranged" THEN 65533 ELSE IF style = "rangew" THEN 10 ELSE 0
            isd(k) == style = "mixed" /\ k = 1 /\ Len(RunsOf(runs[1], <<>>, M, "delta")) = 1
            words(k) == IF isd(k) THEN <<>> ELSE [j \in 1..Len(runs[k]) |->
                           IF M[runs[k][j]] = 0 THEN 0 ELSE Mod16(M[runs[k][j]] - d)]
